@@ -148,6 +148,9 @@ def to_int(interp, x=0, base=None):
             return mk(z3int(x))
         if x.kind == 'str':
             return interp.strings.str_to_int(x)
+    if type(x).__name__ == 'SStr':
+        from . import sstr
+        return sstr.to_int(x, interp.ops)
     if isinstance(x, str):
         try:
             return int(x.strip()) if base is None else int(x.strip(), base)
@@ -222,6 +225,8 @@ def _round_half_even(q):
 def py_len(interp, x):
     if isinstance(x, (list, tuple, dict, str, set, frozenset, range)):
         return len(x)
+    if type(x).__name__ == 'SStr':
+        return x.length(interp.ops)
     if isinstance(x, NDArr):
         if x.ndim == 0:
             raise_('TypeError', 'len() of unsized object')
@@ -283,6 +288,20 @@ def py_sorted(interp, xs, key=None, reverse=False):
            for k in ks):
         order = sorted(range(len(xs)), key=lambda i: ks[i], reverse=reverse)
         return [xs[i] for i in order]
+    if all(is_num(k) for k in ks) and len(ks) <= 5:
+        # stable insertion sort by case split on the comparisons
+        out = []
+        for x, k in zip(xs, ks):
+            pos = len(out)
+            for j in range(len(out) - 1, -1, -1):
+                c = interp.ops.compare(ast.Gt() if not reverse else ast.Lt(),
+                                       out[j][1], k)
+                if interp.ops.truth(c):
+                    pos = j
+                else:
+                    break
+            out.insert(pos, (x, k))
+        return [x for x, _ in out]
     raise Unsupported('sorted() of symbolic keys')
 
 
@@ -326,8 +345,11 @@ def py_str(interp, v=''):
         return "<class '%s'>" % v.name
     if isinstance(v, Sym) and v.kind == 'str':
         return v
+    if type(v).__name__ == 'SStr':
+        return v
     if isinstance(v, Sym) and v.kind == 'int':
-        return interp.strings.int_to_str(v)
+        from . import sstr
+        return sstr.int_text(v, '', interp)
     if isinstance(v, (list, tuple, dict)) and _all_concrete(v):
         return str(_to_native(v))
     return OpaqueStr('str(%s)' % type(v).__name__)
@@ -372,7 +394,8 @@ def _init_types():
     T['bool'] = TypeV('bool', lambda v: isinstance(v, bool) or
                       (isinstance(v, Sym) and v.kind == 'bool'),
                       lambda interp, v=False: _tobool(interp, v))
-    T['str'] = TypeV('str', lambda v: _isstr(v) or isinstance(v, OpaqueStr),
+    T['str'] = TypeV('str', lambda v: _isstr(v) or isinstance(v, OpaqueStr)
+                     or type(v).__name__ == 'SStr',
                      py_str)
     T['list'] = TypeV('list', lambda v: isinstance(v, list),
                       lambda interp, v=(): list(interp.iterate(v)))
@@ -564,7 +587,57 @@ _LIST_ANY = {'append', 'insert', 'pop', 'extend', 'copy', 'clear', 'reverse'}
 _LIST_CONC = {'index', 'remove', 'count', 'sort'}
 
 
+def _sstr_method(interp, v, name):
+    from . import sstr
+    ops = interp.ops
+    if name == 'rfind':
+        return Builtin('rfind', lambda nd: sstr.find(v, nd, ops, True))
+    if name == 'find':
+        return Builtin('find', lambda nd: sstr.find(v, nd, ops, False))
+    if name == 'replace':
+        return Builtin('replace', lambda o, n: sstr.replace(v, o, n, ops))
+    if name == 'split':
+        return Builtin('split', lambda sep=None: sstr.split(v, sep, ops))
+    if name in ('strip', 'lstrip', 'rstrip'):
+        return Builtin(name, lambda chars=None: sstr.strip(
+            v, chars, ops, left=name != 'rstrip', right=name != 'lstrip'))
+    if name == 'startswith':
+        def sw(prefix):
+            if not isinstance(prefix, str):
+                raise Unsupported('startswith symbolic')
+            n = v.concrete_len()
+            if n is not None and n < len(prefix):
+                return False
+            return sstr.equals(sstr.slice_(v, 0, len(prefix), ops), prefix,
+                               ops)
+        return Builtin('startswith', sw)
+    if name == 'endswith':
+        def ew(suffix):
+            n = v.concrete_len()
+            if n is None or not isinstance(suffix, str):
+                raise Unsupported('endswith symbolic')
+            if n < len(suffix):
+                return False
+            return sstr.equals(sstr.slice_(v, n - len(suffix), n, ops),
+                               suffix, ops)
+        return Builtin('endswith', ew)
+    if name == 'join':
+        def join(xs):
+            out = []
+            for i, part in enumerate(interp.iterate(xs)):
+                if i:
+                    out.append(v)
+                out.append(part)
+            return sstr.simplify(sstr.SStr(out))
+        return Builtin('join', join)
+    if name == 'format':
+        raise Unsupported('structured string used as a format string')
+    return None
+
+
 def method(interp, v, name):
+    if type(v).__name__ == 'SStr':
+        return _sstr_method(interp, v, name)
     if isinstance(v, list):
         return _list_method(interp, v, name)
     if isinstance(v, dict):
@@ -797,6 +870,15 @@ def _str_method(interp, s, name):
             parts = list(interp.iterate(xs))
             if all(isinstance(p, str) for p in parts):
                 return s.join(parts)
+            if all(isinstance(p, str) or type(p).__name__ == 'SStr'
+                   for p in parts):
+                from . import sstr
+                out = []
+                for i, part in enumerate(parts):
+                    if i:
+                        out.append(s)
+                    out.append(part)
+                return sstr.simplify(sstr.SStr(out))
             out = []
             for i, p in enumerate(parts):
                 if i:
@@ -814,9 +896,10 @@ def str_format(interp, fmt, args, kwargs):
                               **{k: _to_native(v) for k, v in kwargs.items()})
         except (ValueError, KeyError, IndexError, TypeError) as e:
             raise_(type(e).__name__, str(e))
-    if hasattr(interp, 'strings') and interp.strings.can_format(fmt, args,
-                                                                kwargs):
-        return interp.strings.format(fmt, args, kwargs)
+    from . import sstr
+    r = sstr.format_(fmt, args, kwargs, interp)
+    if r is not None:
+        return r
     return OpaqueStr('format')
 
 
@@ -827,8 +910,10 @@ def str_percent(interp, fmt, arg):
             return fmt % tuple(_to_native(a) for a in args)
         except (ValueError, TypeError) as e:
             raise_(type(e).__name__, str(e))
-    if hasattr(interp, 'strings') and interp.strings.can_percent(fmt, args):
-        return interp.strings.percent(fmt, args)
+    from . import sstr
+    r = sstr.percent(fmt, args, interp)
+    if r is not None:
+        return r
     return OpaqueStr('percent-format')
 
 
@@ -1730,6 +1815,21 @@ def external_modules(interp):
     })
     E['scipy'] = _mod('scipy', {'integrate': E['scipy.integrate'],
                                 'optimize': E['scipy.optimize']})
+    def consecutive_groups(it, iterable, ordering=None):
+        """more_itertools.consecutive_groups: maximal runs in which each item
+        is its predecessor + 1 (exact reimplementation of the documented
+        groupby(enumerate, key=index - value) behaviour)"""
+        xs = list(it.iterate(iterable))
+        groups = []
+        for k, x in enumerate(xs):
+            if k and it.ops.truth(it.ops.equals(
+                    x, it.ops.binop(ADD, xs[k - 1], 1))):
+                groups[-1].append(x)
+            else:
+                groups.append([x])
+        return groups
+    E['more_itertools'] = _mod('more_itertools', {
+        'consecutive_groups': B('consecutive_groups', consecutive_groups)})
     E['os'] = _mod('os', {})
     E['re'] = _mod('re', _re_table(interp))
     E['itertools'] = _mod('itertools', {
